@@ -24,10 +24,8 @@ exes = ["smd_" + os.path.basename(p)[:-5] for p in glob.glob(os.path.join(VERIF,
 rc = sh(["lake", "build", "SophiaModel", "SophiaProofs"] + exes, os.path.join(VERIF, "lean"))
 if rc != 0:
     print("lake build failed (checks will report it)")
-lock = os.path.join(VERIF, "harness", "Cargo.lock")
-if not os.path.exists(lock) and os.path.exists("/repo/Cargo.lock"):
-    shutil.copy("/repo/Cargo.lock", lock)
-rc = sh(["cargo", "build", "--offline", "--workspace", "--keep-going"], os.path.join(VERIF, "harness"))
-if rc != 0:
-    print("cargo build failed (checks will report it)")
+for d in sorted(glob.glob(os.path.join(VERIF, "harness", "props", "c*"))):
+    rc = sh([sys.executable, os.path.join(HERE, "cb.py"), os.path.basename(d)], VERIF)
+    if rc != 0:
+        print("cargo build failed for %s (its check will report it)" % d)
 sys.exit(0)
